@@ -10,7 +10,7 @@ AUDIT_IMPORTS = ["H5V.Props.C09"]
 THEOREMS = ["H5V.Props.C09." + t for t in [
     "C09_only_the_reader_counts", "C09_fold_counts_once", "C09_crlf_counts_once", "C09_crlf_split",
     "C09_eat_prologue", "C09_bav_counts", "C09_step_conserves", "C09_invariant_initial", "C09_line_at_any_step",
-    "C09_line_after_input", "C09_eof_line", "C09_eof_line_empty", "C09_brk_is_lf_count"]] + ["H5V.Props.C03.C03_chunk_independence",
+    "C09_line_after_input", "C09_tokens_of_a_step", "C09_eof_line", "C09_eof_line_empty", "C09_brk_is_lf_count"]] + ["H5V.Props.C03.C03_chunk_independence",
     "H5V.Model.HtmlTok.step_lines", "H5V.Model.HtmlTok.crStep_phi", "H5V.Model.HtmlTok.eat_phi",
     "H5V.Model.HtmlTok.lookup_no_break", "H5V.Model.HtmlTok.finish_line", "H5V.Model.HtmlTok.crEof_lines"]
 AUDIT_IMPORTS = ["H5V.Props.C09", "H5V.Props.C03"]
@@ -24,8 +24,7 @@ TRUSTED = [
 ASSUMPTIONS = [
     "the theorems are about the model of tokenizer/mod.rs + char_ref/mod.rs (all of run/feed/end); the byte-level SIMD newline "
     "popcount is modelled as one bump per LF of a run",
-    "the per-token reading of the theorem: tokens are stamped with current_line by `emit`, transitions never change it, so a "
-    "token's line is the value the invariant fixes at that step",
+    "per token: C09_tokens_of_a_step (tokens a step delivers are stamped with the line the step ends on)",
     "the tree builder forwards the number unchanged (set_current_line) — checked by the tree-builder engine, not here",
 ]
 RULE = ("line-break triples (LF, CR, CRLF and runs of them) are placed in every tokenizer state (73 states via "
